@@ -1,5 +1,5 @@
 (* Union/ProofsPropsP.v — proofs of the statements of PropsP.v that need more than one lemma application. *)
-From Verif Require Import Base.Lex Union.Model Union.ModelP Union.ProofsMap Union.ProofsBuf Union.ProofsP.
+From Verif Require Import Base.Lex Union.Model Union.ModelP Union.ProofsMap Union.ProofsBuf Union.ProofsP Union.ProofsBatch.
 From Coq Require Import Sorted ZifyN ZifyNat.
 
 Lemma C07_pipelined_get_proof : forall store ops snap k,
@@ -44,4 +44,28 @@ Lemma C07_pipelined_empty_as_miss_refuted_proof : exists ops snap k,
 Proof.
   exists [PDel [97]; PFlush; PFlushDone; PFlushWait; PBatchGet [[97]]], [([97], [120])], [97].
   vm_compute. split; [reflexivity|discriminate].
+Qed.
+
+Lemma C07_pipelined_batch_get_proof : forall st snap keys, no_tomb snap -> dsorted false snap ->
+  (forall k, kv_get (fst (p_batch_get st keys)) k = if key_mem k keys then p_lookup st k else None) /\
+  let '(handed, res) := pu_batch_get snap st keys in
+  handed = filter (fun k => match p_lookup st k with None => true | Some _ => false end) keys /\
+  dsorted false res /\
+  forall k, kv_get res k =
+    if key_mem k keys
+    then match (match p_lookup st k with Some v => Some v | None => kv_get snap k end) with
+         | Some v => if is_tomb v then None else Some v
+         | None => None
+         end
+    else None.
+Proof.
+  intros st snap keys Hn Hs. split; [intros k; apply p_batch_get_map|].
+  unfold pu_batch_get.
+  pose proof (Union.ProofsBatch.batch_get_spec snap (fst (p_batch_get st keys)) keys Hn Hs) as H.
+  destruct (buffer_batch_get snap (fst (p_batch_get st keys)) keys) as [handed res].
+  destruct H as (Hh & Hr & Hg). split; [|split; [exact Hr|]].
+  - rewrite Hh. apply filter_ext_in. intros k Hk. unfold Union.ProofsBatch.unbuffered.
+    rewrite p_batch_get_map, (proj2 (key_mem_In k keys) Hk). reflexivity.
+  - intros k. rewrite Hg. destruct (key_mem k keys) eqn:M; [|reflexivity].
+    unfold union_get. rewrite p_batch_get_map, M. reflexivity.
 Qed.
